@@ -203,6 +203,9 @@ func DecodeBytes(data []byte) *Decoded {
 	d.Hwm, d.Txid = m.Hwm, m.Txid
 	dc := &decoder{d: d, data: data, ps: ps}
 	for i := 0; i < 2; i++ {
+		if i*ps+pageHeaderSize > len(data) {
+			continue
+		}
 		h := hdrAt(data[i*ps:])
 		if d.Meta[i].Valid && (h.flags != flagMeta || h.id != uint64(i)) {
 			dc.problem("meta page %d: page header id=%d flags=%#x", i, h.id, h.flags)
